@@ -177,58 +177,87 @@ def s19a_collapse_discipline(ctx):
     adt = m.adt_of_impl(imp[0])
     ints = [fl['name'] for fl in adt['variants'][0]['fields'] if fl['tyj']['t'] == 'int']
     n = 0
-    for pf in all_path_facts(b):
-        if not pf.returns:
+    from symexec import PathSym
+    from paths import enumerate_paths
+
+    def resolve(t, ps, depth=0):
+        """expression over the state at entry: reads of rewritten self fields are replaced by what the path stored there"""
+        if not isinstance(t, tuple) or not t or depth > 12:
+            return t
+        if t[0] in ('ref', 'deref'):
+            return resolve(t[1], ps, depth + 1)
+        if t[0] == 'sf':
+            fp, v = t[1], t[2]
+            if v == 0:
+                return ('S0', fp)
+            kn = ps.known.get((fp, v))
+            return resolve(kn, ps, depth + 1) if kn is not None else ('S?', fp, v)
+        if t[0] == 'field' and t[1][0] == 'bin' and t[1][1].endswith('WithOverflow') and str(t[2]) == '0':
+            return resolve(('bin', t[1][1][:-len('WithOverflow')], t[1][2], t[1][3], t[1][4]), ps, depth + 1)
+        if t[0] == 'cast':
+            return resolve(t[2], ps, depth + 1)
+        return tuple(resolve(x, ps, depth + 1) if isinstance(x, tuple) else x for x in t)
+
+    def is_advanced(t, pos):
+        return (t[0] == 'bin' and t[1] in ('Add', 'AddUnchecked') and ((t[2] == ('S0', (pos,)) and t[3][0] == 'const' and t[3][2] == 1)
+                                                                         or (t[3] == ('S0', (pos,)) and t[2][0] == 'const' and t[2][2] == 1))) or \
+               (t[0] == 'call' and t[1].endswith(('::saturating_add', '::wrapping_add')) and len(t[2]) == 2 and resolve_eq(t[2][0], ('S0', (pos,))) and t[2][1][0] == 'const' and t[2][1][2] == 1)
+
+    def resolve_eq(x, y):
+        return x == y
+
+    # the position is the integer field next() writes
+    written = set()
+    paths = enumerate_paths(b)
+    syms = [PathSym(b, p) for p in paths]
+    for ps in syms:
+        for fp, tree, pos_ in ps.stores:
+            if len(fp) == 1 and fp[0] in ints:
+                written.add(fp[0])
+    if len(written) != 1:
+        r.violate('CollapseTimeframe|next|position-field', 'next() writes %s integer fields (expected exactly the position)' % sorted(written), b.file, b.line)
+        return r
+    pos = next(iter(written))
+    for ps in syms:
+        if not ps.returns:
             continue
         n += 1
-        incs = {}
-        resets = {}
-        for pl, tree, line in pf.stores:
-            fp = self_field_of_place(pl)
-            if fp and len(fp) == 1 and fp[0] in ints:
-                k = classify_write(tree, fp[0])
-                if k == 'increment':
-                    incs[fp[0]] = incs.get(fp[0], 0) + 1
-                elif k == 'reset':
-                    resets[fp[0]] = tree
-        # the emission test: Eq(self.<pos>, self.<period>)
+        fv = ps.final_version(pos)
+        final = ('S0', (pos,)) if fv == 0 else resolve(('sf', (pos,), fv), ps)
+        # the emission test: (position + 1) == self.<other integer field>
         test = None
-        for d, vals, blk, allv in pf.decisions:
-            if d[0] == 'bin' and d[1] == 'Eq':
-                names = []
-                for side in (d[2], d[3]):
-                    s_ = _strip(side)
-                    if s_[0] == 'field' and _strip(s_[1])[0] == 'arg':
-                        names.append(s_[2])
-                if len(names) == 2:
-                    truth = not (vals != 'otherwise' and 0 in vals)
-                    test = (names, truth)
-        key = 'CollapseTimeframe|next|path%d' % n
-        r.inst('CollapseTimeframe|next|%s' % ('emit' if test and test[1] else 'hold'))
-        pos_fields = [x for x in incs]
-        if len(incs) != 1 or list(incs.values()) != [1]:
-            r.violate('CollapseTimeframe|next|increment-count', 'a path of next() increments the position %s times (expected exactly once): %s' % (sum(incs.values()), incs), b.file, b.line)
+        for d, vals in ps.decisions:
+            d2 = resolve(d, ps)
+            if d2[0] == 'bin' and d2[1] == 'Eq':
+                sides = (d2[2], d2[3])
+                for x, y in (sides, sides[::-1]):
+                    if is_advanced(x, pos) and y[0] == 'S0' and len(y[1]) == 1 and y[1][0] in ints and y[1][0] != pos:
+                        test = (y[1][0], not (vals != 'otherwise' and 0 in vals))
+                    elif x == ('S0', (pos,)) and y[0] == 'S0' and len(y[1]) == 1 and y[1][0] in ints and y[1][0] != pos:
+                        test = ('stale', None)
+        if test is None:
+            r.violate('CollapseTimeframe|next|no-period-test', 'a path of next() does not compare the advanced position (position + 1) with the period', b.file, b.line)
             continue
-        pos = pos_fields[0]
-        if test is None or pos not in test[0]:
-            r.violate('CollapseTimeframe|next|no-period-test', 'a path of next() does not compare the position with the period', b.file, b.line)
+        if test[0] == 'stale':
+            r.violate('CollapseTimeframe|next|test-before-advance', 'a path of next() compares the position with the period before advancing it: one output per period + 1 inputs', b.file, b.line)
             continue
-        ret = pf.ret
-        takes = [tr for blk, tr, t in pf.calls if tr[4].endswith('Option::<T>::take')]
+        r.inst('CollapseTimeframe|next|%s' % ('emit' if test[1] else 'hold'))
+        ret = ps.ret
+        takes = [tr for _, tr in ps.calls if tr[4].endswith('Option::<T>::take')]
         if test[1]:
-            if pos not in resets or not (resets[pos][0] == 'const' and resets[pos][2] == 0):
-                r.violate('CollapseTimeframe|next|emit-without-reset', 'the emitting path does not reset the position to 0', b.file, b.line)
+            if not (final[0] == 'const' and final[2] == 0):
+                r.violate('CollapseTimeframe|next|emit-without-reset', 'the emitting path leaves the position at %s instead of 0' % tree_str(final)[:60], b.file, b.line)
             if not (ret and ret[0] == 'call' and ret[4].endswith('Option::<T>::take')):
                 r.violate('CollapseTimeframe|next|emit-not-take', 'the emitting path does not return the taken accumulator (returns %s)' % (tree_str(ret)[:60] if ret else None), b.file, b.line)
-            r.sample({'path': 'emit', 'test': test[0], 'returns': tree_str(ret)[:60] if ret else None})
+            r.sample({'path': 'emit', 'test': '%s + 1 == %s' % (pos, test[0]), 'position after': tree_str(final)[:40], 'returns': tree_str(ret)[:60] if ret else None})
         else:
-            if pos in resets:
-                r.violate('CollapseTimeframe|next|hold-resets', 'a non-emitting path resets the position', b.file, b.line)
+            if not is_advanced(final, pos):
+                r.violate('CollapseTimeframe|next|increment-count', 'a non-emitting path leaves the position at %s (expected position + 1: exactly one step per input)' % tree_str(final)[:70], b.file, b.line)
             if not (ret and ret[0] == 'agg' and str(ret[2]).endswith('Option::None')):
                 r.violate('CollapseTimeframe|next|hold-not-none', 'a non-emitting path returns %s instead of None' % (tree_str(ret)[:60] if ret else None), b.file, b.line)
             if len(takes) > 1:
                 r.violate('CollapseTimeframe|next|hold-takes', 'a non-emitting path empties the accumulator', b.file, b.line)
-            r.sample({'path': 'hold', 'test': test[0], 'returns': 'None'})
+            r.sample({'path': 'hold', 'test': '%s + 1 != %s' % (pos, test[0]), 'position after': tree_str(final)[:40], 'returns': 'None'})
     # accumulate closure: current + candle.clone()
     found_add = False
     for bid, bj in f.bodies.items():
